@@ -81,7 +81,7 @@ for i in range(1,21):
     if pid in CLAIMED: continue
     na.append({"property_id":pid,"reason":NA.get(pid,PENDING)})
 m={"version":1,
- "setup_cmd":"cd /verif/engine && GOFLAGS=-mod=mod GOPROXY=off GOSUMDB=off GOTOOLCHAIN=local go build -o /verif/bin/gosmt .",
+ "setup_cmd":"mkdir -p /verif/bin /verif/.work && cd /verif/engine && GOFLAGS=-mod=mod GOPROXY=off GOSUMDB=off GOTOOLCHAIN=local go build -o /verif/bin/gosmt .",
  "hooks":{"guard":"verif","enable":"none needed: harnesses are injected with go/packages Overlay (engine) and go test -overlay (native replay); there are no hook commits in /repo","baseline_off_cmd":"cd /repo && go test -vet=off -count=1 -timeout 25m ./...","source_commits":[],"add_only":True},
  "engines":[{"name":"gosmt","path":"/verif/engine","serves_properties":sorted(CLAIMED),"kind_free_text":"bounded symbolic executor for go/ssa (x/tools v0.29.0) emitting SMT-LIB2 to z3/cvc5; harnesses in /verif/harness/<pkg>; counterexamples replayed natively with go test -overlay"}],
  "checks":checks,
